@@ -33,7 +33,7 @@ AllDevs == {"relu_clip_negmax", "clip_clip_disjoint", "relu_clip_no_dtype_raise"
             "clip_inputs_pre_opset11", "expand_rank_extension", "expand_binop_drops_attrs",
             "materialize_allowzero", "slice_split_odd", "split_num_outputs_pre_opset18",
             "flatten_zero_dim", "reshape_matmul_ignores_inner_shapes"}
-AllFamilies == {"relus_clips", "min_max", "no_op", "dropout", "cast_cos", "scatter_static"}
+AllFamilies == {"relus_clips", "min_max", "no_op", "dropout", "cast_cos", "scatter_static", "scatter_dynamic", "expand_binop", "materialize", "collapse_slices", "casts", "no_op_expand", "reshape_reshape", "flatten", "slice_split", "transposes", "unsqueeze2", "squeeze_reshape", "matmul_reshape"}
 Big == Menu = "thorough"
 
 RAISE == [dt |-> "RAISE", shape |-> <<>>, data |-> <<>>]
@@ -65,7 +65,7 @@ Bounds == {NONE} \cup (-2..2)
 RedBounds == {NONE, -1, 1}
 RC_P(r, lo1, hi1, lo2, hi2, k, vi, dt, ex) ==
    [rule |-> r, lo1 |-> lo1, hi1 |-> hi1, lo2 |-> lo2, hi2 |-> hi2, ckind |-> k, vi |-> vi, dt |-> dt, extra |-> ex]
-RC_Params ==
+RC_Params(z) ==
    {RC_P("relu_relu", NONE, NONE, NONE, NONE, "init", vi, dt, ex) : vi \in BOOLEAN, dt \in {"f32", "i64"}, ex \in BOOLEAN}
    \cup {RC_P(r, lo, hi, NONE, NONE, "init", TRUE, "f32", FALSE) : r \in {"clip_relu", "relu_clip"}, lo \in Bounds, hi \in Bounds}
    \cup {RC_P(r, lo, hi, NONE, NONE, k, vi, dt, ex) : r \in {"clip_relu", "relu_clip"}, lo \in RedBounds, hi \in RedBounds,
@@ -116,7 +116,7 @@ MM_P(r, c1, c2, cs, xs, k, dt, opset, ex) ==
    [rule |-> r, c1 |-> c1, c2 |-> c2, cs |-> cs, xs |-> xs, ckind |-> k, dt |-> dt, opset |-> opset, extra |-> ex]
 MM_Rules == {"min_min", "max_max", "min_max", "max_min"}
 MM_Vals == IF Big THEN -2..2 ELSE {-1, 0, 2}
-MM_Params ==
+MM_Params(z) ==
    \* one constant per node, every ordering, every constant shape x every x shape
    {MM_P(r, <<a>>, <<b>>, cs, xs, "init", "f32", 18, FALSE) : r \in MM_Rules, a \in MM_Vals, b \in MM_Vals,
         cs \in {<<>>, <<1>>, <<1, 1>>, <<7>>}, xs \in {<<>>, <<7>>, <<1, 7>>}}
@@ -164,7 +164,7 @@ MM_Unknown(q) == q.ckind \in {"ginput", "ginit"}
 (* no_op: _no_op.py  (x*1, 1*x, x+0, 0+x, x-0, x/1, Dropout).  Fixed point: 1000 = 1.0, 1 = "eps" *)
 (* = a quantity inside Constant's tolerance that is not the literal.                              *)
 NO_P(op, side, cv, cs, k, dt, xs) == [op |-> op, side |-> side, cv |-> cv, cs |-> cs, ckind |-> k, dt |-> dt, xs |-> xs]
-NO_Params ==
+NO_Params(z) ==
    {NO_P(op, sd, cv, cs, k, "f32", xs) : op \in {"Mul", "Add", "Sub", "Div"}, sd \in {"R", "L"}, cv \in {0, 1, 1000, 1001, 2000},
         cs \in {<<>>, <<1>>}, k \in (IF Big THEN Kinds ELSE {"init"}), xs \in {<<>>, <<7>>, <<1, 7>>}}
    \cup {NO_P(op, sd, cv, <<>>, k, dt, <<7>>) : op \in {"Mul", "Add", "Sub", "Div"}, sd \in {"R", "L"}, cv \in {0, 1000, 2000},
@@ -194,14 +194,14 @@ NO_Unknown(q) == q.ckind \in {"ginput", "ginit"} \/ q.cv # NO_Target(q)
 
 (* dropout: _no_op.py dropout_zero (attribute ratio = 0.0: opset < 12 only) / dropout_inference (attribute   *)
 (* training_mode: exists in no opset).  ratio in 1/1000; at opset 18 the ratio is an input.                   *)
-DO_Params == {[opset |-> os, ratio |-> r, mask |-> m, xs |-> <<7>>, dt |-> "f32"] : os \in {10, 18}, r \in {NONE, 0, 500}, m \in BOOLEAN}
+DO_Params(z) == {[opset |-> os, ratio |-> r, mask |-> m, xs |-> <<7>>, dt |-> "f32"] : os \in {10, 18}, r \in {NONE, 0, 500}, m \in BOOLEAN}
 DO_Lhs(q) == XT(q.dt, q.xs)                       \* inference mode: Dropout is the identity whatever the ratio
 DO_Match(q, devs) == q.opset = 10 /\ q.ratio = 0 /\ ~q.mask
 DO_Rewrite(q, devs) == Res(XT(q.dt, q.xs), TRUE)
 
 -----------------------------------------------------------------------------
 (* cast_cos: _cast_constant_of_shape.py.  Fixed point: values in 1/10 (27 = 2.7).                 *)
-CC_Params ==
+CC_Params(z) ==
    {[hasval |-> TRUE, v |-> v, vdt |-> vdt, to |-> to, shp |-> shp] :
         v \in {0, 10, -30, 3000, 27, -27}, vdt \in {"f32", "i64", "i32"}, to \in {"f32", "f16", "i64", "i32", "u8", "bool"},
         shp \in (IF Big THEN {"c23", "c0", "cs", "dyn"} ELSE {"c23", "dyn"})}
@@ -227,7 +227,7 @@ CC_Unknown(q) == FALSE
 
 -----------------------------------------------------------------------------
 (* scatter_static: _redundant_scatter_nd.py ScatterAllStatic                                      *)
-SC_Params ==
+SC_Params(z) ==
    {[ds |-> ds, dd |-> dd, ud |-> ud, idx |-> ix, red |-> rd] :
         ds \in {<<3>>, <<3, 2>>}, dd \in {"static", "sym", "unk", "none"}, ud \in {"static", "sym", "sym2", "none"},
         ix \in {"full", "perm", "short", "ginput", "ginit"}, rd \in {"absent", "none", "add", "mul"}}
@@ -261,20 +261,594 @@ SC_Rewrite(q, devs) == Res(SC_Upd(q), TRUE)
 SC_Unknown(q) == q.dd \in {"unk", "none", "sym"} \/ q.ud \in {"none", "sym", "sym2"} \/ q.idx \in {"ginput", "ginit"}
 
 -----------------------------------------------------------------------------
+(* shapes, symbolic declarations *)
+ShapesUpTo(r, D) == UNION {[1..n -> D] : n \in 0..r}
+\* declared form of an actual shape: static | every dim > 1 replaced by a symbol named after its size
+\* (2 -> "N", 3 -> "M", ...: equal sizes share the symbol) | no shape at all
+Sy(shape) == [i \in 1..Len(shape) |-> IF shape[i] <= 1 THEN shape[i] ELSE -(shape[i] - 1)]
+Decl(kind, shape) == CASE kind = "static" -> shape [] kind = "sym" -> Sy(shape) [] kind = "none" -> NOSHP
+                       [] kind = "unk" -> [i \in 1..Len(shape) |-> UNK]
+IsInt(d) == d >= 0
+Last(s) == s[Len(s)]
+RevAt(s, j) == IF j < Len(s) THEN s[Len(s) - j] ELSE 1          \* right-aligned dim j (0 = last), 1 when missing
+Bit1(k, x, y) == CASE k = "and" -> x * y [] k = "or" -> Max2(x, y) [] k = "xor" -> (x + y) % 2
+RECURSIVE BitOp(_, _, _)
+BitOp(a, b, k) == IF a = 0 /\ b = 0 THEN 0 ELSE Bit1(k, a % 2, b % 2) + 2 * BitOp(a \div 2, b \div 2, k)
+RECURSIVE IPow(_, _)
+IPow(a, n) == IF n = 0 THEN 1 ELSE a * IPow(a, n - 1)
+
+-----------------------------------------------------------------------------
+(* scatter_dynamic: _redundant_scatter_nd.py ScatterAllDynamic                                                 *)
+(*   ScatterND(td, Unsqueeze(Range(0, Gather(Shape(data, start=0), axis, axis=0), 1), [-1]), upd, reduction="none") *)
+SD_AllParams(z) ==
+   {[ds |-> ds, axis |-> ax, decl |-> dc, tdk |-> tk, start |-> st, red |-> rd, akind |-> "init"] :
+        ds \in {<<3>>, <<2, 3>>}, ax \in -2..1, dc \in {"static", "sym", "none"}, tk \in {"tr_vi", "tr_novi", "same", "diffsym", "bigger"},
+        st \in {NONE, 0}, rd \in {"absent", "none", "add"}}
+   \cup {[ds |-> <<2, 3>>, axis |-> ax, decl |-> dc, tdk |-> "tr_vi", start |-> 0, red |-> "none", akind |-> k] :
+        ax \in {0, 1}, dc \in {"static", "sym"}, k \in {"cnode", "ginput", "ginit"}}
+SD_Params(z) == {q \in SD_AllParams(0) : NormAxis(q.axis, Len(q.ds)) # -1000}
+SD_A(q) == NormAxis(q.axis, Len(q.ds))
+SD_N(q) == q.ds[SD_A(q) + 1]
+SD_Perm(q) == <<SD_A(q)>> \o SelectSeq([i \in 1..Len(q.ds) |-> i - 1], LAMBDA j : j # SD_A(q))
+SD_TdShape(q) == <<IF q.tdk = "bigger" THEN SD_N(q) + 1 ELSE SD_N(q)>> \o RemoveAt(q.ds, SD_A(q) + 1)
+SD_Data(q) == T("f32", q.ds, [k \in 1..Numel(q.ds) |-> k])
+SD_Td(q) == IF q.tdk \in {"tr_vi", "tr_novi"} THEN Transpose(SD_Data(q), SD_Perm(q))
+            ELSE T("f32", SD_TdShape(q), [k \in 1..Numel(SD_TdShape(q)) |-> 10 + k])
+SD_UpdShape(q) == <<SD_N(q)>> \o Tail(SD_TdShape(q))
+SD_Upd(q) == T("f32", SD_UpdShape(q), [k \in 1..Numel(SD_UpdShape(q)) |-> -k])
+SD_Lhs(q) == LET td == SD_Td(q) u == SD_Upd(q) nu == Numel(SD_UpdShape(q)) IN
+             T("f32", td.shape, [k \in 1..Numel(td.shape) |-> IF k > nu THEN td.data[k] ELSE IF q.red = "add" THEN td.data[k] + u.data[k] ELSE u.data[k]])
+SD_DataDecl(q) == Decl(q.decl, q.ds)
+SD_TdDecl(q) == IF q.tdk = "tr_novi" THEN NOSHP
+                ELSE IF q.decl = "none" THEN SD_TdShape(q)
+                ELSE LET d == Decl(q.decl, SD_TdShape(q)) IN
+                     IF q.tdk = "diffsym" /\ IsSym(d[1]) THEN <<-3>> \o Tail(d) ELSE d
+\* the pattern spells out the attributes start = 0 and reduction = "none": nodes that rely on the defaults do not match
+SD_Match(q, devs) == q.start = 0 /\ q.red = "none"
+SD_Check(q, devs) ==
+   LET dd == SD_DataDecl(q) td == SD_TdDecl(q) IN
+   IF ~HasConstValue(q.akind, devs) THEN "fail"
+   ELSE IF dd = NOSHP \/ td = NOSHP THEN "fail"
+   ELSE IF dd[SD_A(q) + 1] = UNK \/ td[1] = UNK \/ dd[SD_A(q) + 1] # td[1] THEN "fail"      \* _ir_utils.same_dim
+   ELSE "ok"
+SD_Rewrite(q, devs) == Res(SD_Upd(q), TRUE)
+SD_Unknown(q) == q.decl = "none" \/ q.tdk = "tr_novi" \/ q.akind \in {"ginput", "ginit"}
+
+-----------------------------------------------------------------------------
+(* expand_binop: _remove_expand_before_binary_op.py   Op(Expand(a, s), b) / Op(b, Expand(a, s))   *)
+EX_Ops == {"Add", "Sub", "Mul", "Div", "Mod", "Mod_fmod", "Pow", "Equal", "Greater", "GreaterOrEqual", "Less", "LessOrEqual",
+           "And", "Or", "Xor", "BitShift_L", "BitShift_R", "BitwiseAnd", "BitwiseOr", "BitwiseXor"}
+EX_Class(op) == CASE op \in {"And", "Or", "Xor"} -> "bool"
+                  [] op \in {"BitShift_L", "BitShift_R"} -> "u8"
+                  [] op \in {"BitwiseAnd", "BitwiseOr", "BitwiseXor"} -> "i32"
+                  [] op \in {"Div", "Mod", "Mod_fmod"} -> "i64"
+                  [] OTHER -> "f32"
+EX_OutDt(op) == IF op \in {"Equal", "Greater", "GreaterOrEqual", "Less", "LessOrEqual"} THEN "bool" ELSE EX_Class(op)
+B2I(b) == IF b THEN 1 ELSE 0
+EX_F(op, u, v) ==      \* u: first operand of the node, v: second
+   CASE op = "Add" -> u + v [] op = "Sub" -> u - v [] op = "Mul" -> u * v
+     [] op = "Div" -> TruncDiv(u, v) [] op = "Mod" -> PyMod(u, v) [] op = "Mod_fmod" -> CMod(u, v)
+     [] op = "Pow" -> IPow(u, v)
+     [] op = "Equal" -> B2I(u = v) [] op = "Greater" -> B2I(u > v) [] op = "GreaterOrEqual" -> B2I(u >= v)
+     [] op = "Less" -> B2I(u < v) [] op = "LessOrEqual" -> B2I(u <= v)
+     [] op = "And" -> u * v [] op = "Or" -> Max2(u, v) [] op = "Xor" -> (u + v) % 2
+     [] op = "BitShift_L" -> (u * IPow(2, v)) % 256 [] op = "BitShift_R" -> u \div IPow(2, v)
+     [] op = "BitwiseAnd" -> BitOp(u, v, "and")
+     [] op = "BitwiseOr" -> BitOp(u, v, "or")
+     [] op = "BitwiseXor" -> BitOp(u, v, "xor")
+\* operand data by value class; the operand in second position is positive where it divides / is an exponent
+EX_Val(op, first, k) ==
+   CASE EX_Class(op) = "bool" -> IF first THEN k % 2 ELSE (k \div 2) % 2
+     [] EX_Class(op) \in {"u8", "i32"} -> IF first THEN ((k - 1) % 5) + 1 ELSE (k - 1) % 3
+     [] OTHER -> IF first THEN ((k - 1) % 5) - 2 ELSE ((k - 1) % 3) + 1
+EX_InDt(op) == EX_Class(op)
+EX_Operand(op, first, shape) == T(EX_InDt(op), shape, [k \in 1..Numel(shape) |-> EX_Val(op, first, k)])
+EX_P(op, pos, as, es, bs, strat, decl) == [op |-> op, pos |-> pos, as |-> as, es |-> es, bs |-> bs, strat |-> strat, decl |-> decl]
+EX_Shapes == IF Big THEN ShapesUpTo(3, {1, 2}) \cup ShapesUpTo(2, {1, 2, 3}) ELSE ShapesUpTo(2, {1, 2}) \cup {<<1, 1, 2>>}
+EX_ValidShapes(as, es, bs) == BroadcastShape(as, es) # NOSHAPE /\ BroadcastShape(BroadcastShape(as, es), bs) # NOSHAPE
+EX_Few == {<<<<2>>, <<2, 2>>, <<2, 2>>>>, <<<<1>>, <<2>>, <<2>>>>, <<<<2>>, <<1, 2>>, <<2>>>>, <<<<1, 2>>, <<2, 2>>, <<2, 1>>>>}
+EX_Params(z) ==
+   {q \in {EX_P("Sub", pos, as, es, bs, st, dc) : pos \in {1, 2}, as \in EX_Shapes \ (IF Big THEN {} ELSE {<<1, 1>>, <<1, 1, 2>>}), es \in EX_Shapes,
+                bs \in EX_Shapes \ (IF Big THEN {} ELSE {<<1, 1>>, <<1, 1, 2>>}),
+                st \in {"const", "annot", "out", "nothing"}, dc \in {"static", "sym"}} :
+        /\ EX_ValidShapes(q.as, q.es, q.bs)
+        /\ (Big \/ (q.decl = "sym" => q.strat \in {"annot", "out"} /\ q.pos = 1))
+        /\ (Big \/ (q.pos = 2 => q.strat \in {"const", "out"}))}
+   \cup {EX_P(op, pos, t[1], t[2], t[3], st, "static") : op \in EX_Ops, pos \in {1, 2}, t \in EX_Few, st \in {"const", "out"}}
+   \cup {EX_P("Add", pos, t[1], t[2], t[3], st, "none") : pos \in {1, 2}, t \in EX_Few, st \in {"const", "annot", "out", "nothing"}}
+EX_A(q) == EX_Operand(q.op, q.pos = 1, q.as)          \* the expanded operand
+EX_B(q) == EX_Operand(q.op, q.pos = 2, q.bs)          \* the other one
+EX_Bin(q, ea, b, op) == LET F(u, v) == EX_F(op, u, v) IN
+                        IF q.pos = 1 THEN Map2(ea, b, EX_OutDt(op), F) ELSE Map2(b, ea, EX_OutDt(op), F)
+EX_Lhs(q) == EX_Bin(q, Expand(EX_A(q), q.es), EX_B(q), q.op)
+EX_Match(q, devs) == TRUE
+\* one dimension of strategies 1/2 (e_d expand dim, x_d / y_d right-aligned dims of the two operands)
+EX_DimOk(e, x, y, needInt) == \/ e = 1
+                              \/ (x = e /\ (~needInt \/ IsInt(x)))
+                              \/ (y = e /\ (~needInt \/ IsInt(y)))
+EX_BDim(d1, d2) == IF d1 = 1 THEN d2 ELSE IF d2 = 1 THEN d1 ELSE IF d1 = d2 THEN d1 ELSE -1000
+EX_BShape(s1, s2) == LET r == Max2(Len(s1), Len(s2)) IN [i \in 1..r |-> EX_BDim(RevAt(s1, r - i), RevAt(s2, r - i))]
+EX_Check(q, devs) ==
+   LET xd == Decl(q.decl, q.as)
+       yd == IF q.decl = "none" THEN q.bs ELSE Decl(q.decl, q.bs)
+       eact == BroadcastShape(q.as, q.es)                 \* shape of the Expand output
+       ed == IF q.decl = "none" THEN eact ELSE Decl(q.decl, eact)
+       osh == BroadcastShape(eact, q.bs)
+       od == IF q.strat = "out" THEN (IF q.decl = "none" THEN osh ELSE Decl(q.decl, osh))
+             ELSE [i \in 1..Len(osh) |-> UNK]        \* a graph output always has a rank
+       rankOk(e) == Len(e) <= Max2(Len(q.as), Len(q.bs)) \/ "expand_rank_extension" \in devs
+   IN IF xd = NOSHP THEN "fail"
+      ELSE IF q.strat = "const"
+         THEN (IF (\A j \in 0..(Len(q.es) - 1) : EX_DimOk(RevAt(q.es, j), RevAt(xd, j), RevAt(yd, j), TRUE)) /\ rankOk(q.es) THEN "ok" ELSE "fail")
+      ELSE IF q.strat = "annot"
+         THEN (IF (\A j \in 0..(Len(ed) - 1) : EX_DimOk(RevAt(ed, j), RevAt(xd, j), RevAt(yd, j), FALSE)) /\ rankOk(ed) THEN "ok" ELSE "fail")
+      ELSE LET cb == EX_BShape(xd, yd) IN
+           IF -1000 \notin SeqToSet(cb) /\ Len(cb) = Len(od) /\ (\A i \in 1..Len(cb) : cb[i] = od[i] /\ od[i] # UNK) THEN "ok" ELSE "fail"
+\* rewrite builds Op(x, y) without the node's attributes
+EX_Rewrite(q, devs) ==
+   LET drop == "expand_binop_drops_attrs" \in devs
+       op2 == IF drop /\ q.op = "Mod_fmod" THEN "Mod" ELSE q.op
+   IN Res(EX_Bin(q, EX_A(q), EX_B(q), op2), ~(drop /\ q.op \in {"BitShift_L", "BitShift_R"}))
+EX_Unknown(q) == q.decl = "none" \/ (q.strat = "nothing" /\ Len(BroadcastShape(BroadcastShape(q.as, q.es), q.bs)) > 0)
+
+-----------------------------------------------------------------------------
+(* materialize: _materialize_reshape_shape.py   Reshape(data, <dynamic shape>) with a known output shape *)
+MR_Targets(ds) == IF Numel(ds) = 6 THEN {<<6>>, <<2, 3>>, <<3, 2>>, <<-1, 2>>, <<0, 3>>, <<1, 2, 3>>, <<1, 6>>}
+                  ELSE {<<0, 3>>, <<3, 0>>, <<0>>, <<2, 0>>, <<1, 0>>}
+MR_Masks(n) == {m \in [1..n -> BOOLEAN] : Cardinality({i \in 1..n : m[i]}) <= 2}
+MR_AllParams ==
+   UNION {{[ds |-> ds, tg |-> tg, az |-> az, mask |-> m, ovi |-> TRUE, skind |-> "ginput", opset |-> os] :
+              tg \in MR_Targets(ds), az \in {NONE, 1}, m \in UNION {MR_Masks(n) : n \in 1..3}, os \in {13, 14, 18}} :
+          ds \in {<<6>>, <<2, 3>>, <<0, 3>>, <<2, 0>>}}
+   \cup {[ds |-> <<2, 3>>, tg |-> tg, az |-> NONE, mask |-> m, ovi |-> ov, skind |-> k, opset |-> 18] :
+        tg \in {<<3, 2>>, <<6>>}, m \in MR_Masks(2) \cup MR_Masks(1), ov \in BOOLEAN, k \in {"ginput", "init", "cnode", "ginit"}}
+MR_Params(z) == {q \in MR_AllParams : Len(q.mask) = Len(q.tg)}
+MR_Data(q) == T("f32", q.ds, [k \in 1..Numel(q.ds) |-> k])
+MR_HostValid(q) == (q.az = NONE \/ q.opset >= 14) /\ Len(q.mask) = Len(q.tg)
+MR_Lhs(q) == IF ~MR_HostValid(q) THEN ERR ELSE Reshape(MR_Data(q), q.tg, q.az = 1)
+\* the declared output shape: the true dims, masked ones symbolic (distinct names)
+MR_OutDecl(q) == LET o == MR_Lhs(q).shape IN [i \in 1..Len(o) |-> IF q.mask[i] THEN -i ELSE o[i]]
+MR_Match(q, devs) == TRUE
+MR_NewDims(q) == LET d == MR_OutDecl(q) IN [i \in 1..Len(d) |-> IF IsSym(d[i]) THEN -1 ELSE d[i]]
+MR_Check(q, devs) ==
+   IF q.skind \in {"init", "cnode", "ginit"} THEN "fail"           \* shape input is already a constant (declining is always allowed)
+   ELSE IF ~q.ovi THEN "fail"
+   ELSE IF Cardinality({i \in 1..Len(q.mask) : q.mask[i]}) > 1 THEN "fail"
+   \* design: allowzero exists from opset 14 on and excludes -1 next to 0
+   ELSE IF "materialize_allowzero" \notin devs /\ (q.opset < 14 \/ (-1 \in SeqToSet(MR_NewDims(q)) /\ 0 \in SeqToSet(MR_NewDims(q)))) THEN "fail"
+   ELSE "ok"
+MR_Rewrite(q, devs) == Res(Reshape(MR_Data(q), MR_NewDims(q), TRUE), q.opset >= 14)
+MR_Unknown(q) == ~q.ovi \/ Cardinality({i \in 1..Len(q.mask) : q.mask[i]}) > 1
+
+-----------------------------------------------------------------------------
+(* collapse_slices: _collapse_slices.py  rule r1 = collapse_slice_rule, r2 = collapse_slice2_rule        *)
+BIGEND == 1000000         \* stands for INT64_MAX
+CS_AllParams(z) ==
+   {[rule |-> r, ds |-> ds, decl |-> dc, st |-> st, en |-> en, ax |-> ax, sp |-> sp, ckind |-> "init", ovi |-> ov] :
+        r \in {"r1", "r2"}, ds \in (IF Big THEN {<<3>>, <<2, 3>>, <<0, 2>>} ELSE {<<3>>, <<2, 3>>}), dc \in {"static", "sym", "none"},
+        st \in (IF Big THEN {0, 1, -1} ELSE {0, 1}), en \in (IF Big THEN {-1, 1, 2, 3, 4, BIGEND} ELSE {2, 3, 4, BIGEND}),
+        ax \in -2..1, sp \in (IF Big THEN {1, 2, -1} ELSE {1, -1}), ov \in BOOLEAN}
+   \cup {[rule |-> r, ds |-> <<2, 3>>, decl |-> dc, st |-> 0, en |-> en, ax |-> ax, sp |-> 1, ckind |-> k, ovi |-> TRUE] :
+        r \in {"r1", "r2"}, dc \in {"static", "sym"}, en \in {3, BIGEND}, ax \in {0, 1, -1}, k \in {"cnode", "ginput", "ginit"}}
+CS_X(q) == T("f32", q.ds, [k \in 1..Numel(q.ds) |-> k])
+\* (a negative step together with the INT64_MAX end is a corner where ORT departs from the operator text: not generated)
+CS_HostValid(q) == NormAxis(q.ax, Len(q.ds)) # -1000 /\ ~(q.sp < 0 /\ q.en = BIGEND)
+CS_Params(z) == {q \in CS_AllParams(0) : CS_HostValid(q)}
+CS_Lhs(q) == IF ~CS_HostValid(q) THEN ERR ELSE Slice(CS_X(q), <<q.st>>, <<q.en>>, <<q.ax>>, <<q.sp>>)
+CS_Axis(q) == NormAxis(q.ax, Len(q.ds)) + 1
+CS_Full(q) == q.st = 0 /\ q.en = BIGEND /\ q.sp = 1
+\* truthful annotation of the Slice output: static when the data shape is; for a symbolic data shape the sliced
+\* axis is unknown unless the slice is the full one
+CS_OutDecl(q) == LET dd == Decl(q.decl, q.ds) o == CS_Lhs(q).shape IN
+                 IF ~q.ovi \/ q.decl = "none" THEN NOSHP
+                 ELSE IF q.decl = "static" THEN o
+                 ELSE [i \in 1..Len(o) |-> IF i = CS_Axis(q) /\ ~CS_Full(q) /\ IsSym(dd[i]) THEN UNK ELSE IF i = CS_Axis(q) /\ ~IsSym(dd[i]) THEN o[i] ELSE dd[i]]
+CS_Match(q, devs) == TRUE
+CS_Check(q, devs) ==
+   LET dd == Decl(q.decl, q.ds) IN
+   IF ~CS_HostValid(q) THEN "fail"
+   ELSE IF q.rule = "r1"
+   THEN IF ~HasConstValue(q.ckind, devs) THEN "fail"
+        ELSE IF q.sp # 1 \/ q.st # 0 THEN "fail"
+        ELSE IF q.en = BIGEND THEN "ok"
+        ELSE IF dd = NOSHP \/ IsSym(dd[CS_Axis(q)]) THEN "fail"
+        ELSE IF q.en < dd[CS_Axis(q)] THEN "fail" ELSE "ok"
+   ELSE IF dd = NOSHP \/ CS_OutDecl(q) = NOSHP THEN "fail"
+        ELSE IF ~HasConstValue(q.ckind, devs) \/ q.sp # 1 THEN "fail"
+        ELSE IF UNK \in SeqToSet(CS_OutDecl(q)) \/ CS_OutDecl(q) # dd THEN "fail" ELSE "ok"
+CS_Rewrite(q, devs) == Res(CS_X(q), TRUE)
+CS_Unknown(q) == LET dd == Decl(q.decl, q.ds) IN
+                 \/ q.ckind \in {"ginput", "ginit"}
+                 \/ (q.rule = "r1" /\ q.en # BIGEND /\ (dd = NOSHP \/ IsSym(dd[CS_Axis(q)])))
+                 \/ (q.rule = "r2" /\ (dd = NOSHP \/ CS_OutDecl(q) = NOSHP \/ UNK \in SeqToSet(CS_OutDecl(q))))
+
+-----------------------------------------------------------------------------
+(* casts: _basic_rules.py CastCast, CastIdentity *)
+CA_Types == {"f32", "f16", "i64", "i32", "bool"}
+CA_Params(z) == {[kind |-> "castcast", t1 |-> a, t2 |-> b, t3 |-> c, known |-> TRUE] : a \in CA_Types, b \in CA_Types, c \in CA_Types}
+             \cup {[kind |-> "noopcast", t1 |-> a, t2 |-> a, t3 |-> c, known |-> kn] : a \in CA_Types, c \in CA_Types, kn \in BOOLEAN}
+CastV(v, to) == IF to = "bool" THEN (IF v # 0 THEN 1 ELSE 0) ELSE v
+CA_X(q) == IF q.t1 = "bool" THEN T("bool", <<7>>, [k \in 1..7 |-> k % 2]) ELSE XT(q.t1, <<7>>)
+CastT(t, to) == Map1(t, to, LAMBDA v : CastV(v, to))
+CA_Lhs(q) == IF q.kind = "castcast" THEN CastT(CastT(CA_X(q), q.t2), q.t3) ELSE CastT(CA_X(q), q.t3)
+CA_Match(q, devs) == TRUE
+CA_Check(q, devs) == IF q.kind = "castcast" THEN (IF q.t2 = "f32" /\ q.t3 = "f16" THEN "ok" ELSE "fail")
+                     ELSE IF q.known /\ q.t1 = q.t3 THEN "ok" ELSE "fail"
+CA_Rewrite(q, devs) == IF q.kind = "castcast" THEN Res(CastT(CA_X(q), q.t3), TRUE) ELSE Res(CA_X(q), TRUE)
+CA_Unknown(q) == q.kind = "noopcast" /\ ~q.known
+
+-----------------------------------------------------------------------------
+(* no_op_expand: _basic_rules.py ExpandIdentity *)
+NE_Shapes == IF Big THEN ShapesUpTo(2, {1, 2, 3}) ELSE ShapesUpTo(2, {1, 2})
+NE_AllParams(z) == {[as |-> as, decl |-> dc, es |-> es, skind |-> k] : as \in NE_Shapes, dc \in {"static", "sym", "none"}, es \in NE_Shapes,
+                  k \in {"init", "cnode", "ginput", "ginit"}}
+NE_X(q) == T("f32", q.as, [k \in 1..Numel(q.as) |-> k])
+NE_Lhs(q) == Expand(NE_X(q), q.es)
+NE_Check(q, devs) == IF ~HasConstValue(q.skind, devs) THEN "fail"
+                     ELSE IF Decl(q.decl, q.as) = NOSHP THEN "fail"
+                     ELSE IF Decl(q.decl, q.as) # q.es THEN "fail" ELSE "ok"
+NE_Rewrite(q, devs) == Res(NE_X(q), TRUE)
+NE_Unknown(q) == q.decl = "none" \/ q.skind \in {"ginput", "ginit"}
+
+-----------------------------------------------------------------------------
+(* reshape_reshape: _basic_rules.py ReshapeReshape *)
+RR_S1(xs) == IF Numel(xs) = 6 THEN {<<6>>, <<3, 2>>, <<0, -1>>} ELSE {<<0>>, <<2, 0>>}
+RR_S2(xs) == IF Numel(xs) = 6 THEN {<<6>>, <<-1>>, <<2, 3>>, <<0, 2>>, <<0, -1>>, <<-1, 0>>, <<0, 0>>, <<2, -1>>, <<1, 0, -1>>, <<0, 1, 2>>, <<0, 1, 0>>}
+                ELSE {<<0>>, <<0, 2>>, <<3, 0>>, <<-1, 2>>, <<0, 0>>}
+RR_AllParams(z) == UNION {{[xs |-> xs, s1 |-> s1, s2 |-> s2, az |-> az, ovi |-> ov, skind |-> k, extra |-> ex] :
+                  s1 \in RR_S1(xs), s2 \in RR_S2(xs), az \in {NONE, 0, 1}, ov \in BOOLEAN,
+                  k \in {"init", "ginput"}, ex \in BOOLEAN} : xs \in {<<6>>, <<2, 3>>, <<0, 2>>}}
+RR_X(q) == T("f32", q.xs, [k \in 1..Numel(q.xs) |-> k])
+RR_Lhs(q) == Reshape(Reshape(RR_X(q), q.s1, FALSE), q.s2, q.az = 1)
+RR_New(q) ==       \* check(): positive dims of a known output shape are copied into the new shape
+   LET o == RR_Lhs(q).shape IN [i \in 1..Len(q.s2) |-> IF q.ovi /\ o[i] > 0 THEN o[i] ELSE q.s2[i]]
+RR_KeepAz(q) == q.az = 1 /\ 0 \in SeqToSet(RR_New(q))
+RR_Check(q, devs) ==
+   LET n == RR_New(q) IN
+   IF ~HasConstValue(q.skind, devs) THEN "fail"
+   ELSE IF RR_KeepAz(q) THEN "ok"
+   ELSE IF 0 \in SeqToSet(n) /\ (\E i \in 1..Len(n) : n[i] < 0) THEN "fail"
+   ELSE IF Cardinality({i \in 1..Len(n) : n[i] = 0}) > 1 THEN "fail"
+   ELSE "ok"
+RR_Rewrite(q, devs) ==
+   LET n == RR_New(q) IN
+   IF RR_KeepAz(q) THEN Res(Reshape(RR_X(q), n, TRUE), TRUE)
+   ELSE Res(Reshape(RR_X(q), [i \in 1..Len(n) |-> IF n[i] = 0 THEN -1 ELSE n[i]], FALSE), TRUE)
+RR_Unknown(q) == q.skind = "ginput"
+RR_Params(z) == {q \in RR_AllParams(0) : ~IsErr(RR_Lhs(q))}
+
+-----------------------------------------------------------------------------
+(* flatten: _basic_rules.py Flatten2Reshape *)
+FL_Masks(n) == [1..n -> BOOLEAN]
+FL_AllParams(z) == {[xs |-> xs, mask |-> m, axis |-> a, ovi |-> ov, known |-> kn] :
+                  xs \in {<<3>>, <<2, 3>>, <<2, 1, 3>>, <<2, 0, 3>>, <<0, 3>>}, m \in UNION {FL_Masks(n) : n \in 1..3},
+                  a \in {NONE} \cup (-3..3), ov \in BOOLEAN, kn \in BOOLEAN}
+FL_Axis(q) == IF q.axis = NONE THEN 1 ELSE q.axis
+FL_HostValid(q) == Len(q.mask) = Len(q.xs) /\ FL_Axis(q) >= -Len(q.xs) /\ FL_Axis(q) <= Len(q.xs)
+FL_X(q) == T("f32", q.xs, [k \in 1..Numel(q.xs) |-> k])
+FL_Lhs(q) == IF ~FL_HostValid(q) THEN ERR
+             ELSE LET a == IF FL_Axis(q) < 0 THEN FL_Axis(q) + Len(q.xs) ELSE FL_Axis(q)
+                  IN T("f32", <<SeqProd(SubSeq(q.xs, 1, a)), SeqProd(SubSeq(q.xs, a + 1, Len(q.xs)))>>, FL_X(q).data)
+FL_Decl(q) == IF ~q.known THEN NOSHP ELSE [i \in 1..Len(q.xs) |-> IF q.mask[i] THEN -i ELSE q.xs[i]]
+FL_New(q) ==        \* the check() of the code, step by step
+   LET dd == FL_Decl(q)
+       rank == IF dd = NOSHP THEN -1000 ELSE Len(dd)
+       ax == IF dd # NOSHP /\ FL_Axis(q) < 0 THEN FL_Axis(q) + rank ELSE FL_Axis(q)
+       n0 == IF ax = 0 THEN <<1, -1>> ELSE IF ax = 1 THEN <<0, -1>> ELSE IF ax = rank THEN <<-1, 1>> ELSE <<-1, -1>>
+       o == FL_Lhs(q).shape
+       n1 == IF q.ovi THEN o ELSE n0
+       \* python slicing with the (possibly still negative) axis
+       cut == IF ax >= 0 THEN Min2(ax, rank) ELSE Max2(rank + ax, 0)
+       pre == IF dd = NOSHP THEN <<>> ELSE SubSeq(dd, 1, cut)
+       suf == IF dd = NOSHP THEN <<>> ELSE SubSeq(dd, cut + 1, rank)
+       allInt(s) == \A i \in 1..Len(s) : IsInt(s[i])
+       n2 == IF dd = NOSHP THEN n1
+             ELSE <<IF allInt(pre) THEN SeqProd(pre) ELSE n1[1], IF allInt(suf) THEN SeqProd(suf) ELSE n1[2]>>
+   IN n2
+FL_Check(q, devs) ==
+   LET n == FL_New(q) IN
+   IF n[1] = -1 /\ n[2] = -1 THEN "fail"
+   \* design: in the new shape a 0 means "copy the input dim" (wrong when the product of the leading dims is 0 but
+   \* the first dim is not) and a -1 cannot be inferred for a tensor that is empty at run time: without the deviation
+   \* the rule fires only with a fully computed shape that has no such 0
+   ELSE IF "flatten_zero_dim" \notin devs /\ (-1 \in SeqToSet(n) \/ \E i \in 1..2 : n[i] = 0 /\ (i > Len(q.xs) \/ q.xs[i] # 0)) THEN "fail"
+   ELSE "ok"
+FL_Rewrite(q, devs) == Res(Reshape(FL_X(q), FL_New(q), FALSE), TRUE)
+FL_Unknown(q) == FALSE
+FL_Params(z) == {q \in FL_AllParams(0) : FL_HostValid(q)}
+
+-----------------------------------------------------------------------------
+(* slice_split: _basic_rules.py SlicesSplit (two-output pattern) *)
+PAIR(a, b) == IF IsErr(a) \/ IsErr(b) THEN ERR ELSE [dt |-> "PAIR", shape |-> <<>>, data |-> <<a, b>>]
+SS_AllParams(z) ==
+   \* around the rule's own conditions: e0, b1 near d/2, e1 near d
+   UNION {{[xs |-> xs, ax |-> ax, b0 |-> b0, e0 |-> e0, b1 |-> b1, e1 |-> e1, opset |-> os, known |-> kn, order |-> od] :
+              ax \in {-1, 0, 1}, b0 \in {0, 1}, e0 \in {Last(xs) \div 2, CeilDiv(Last(xs), 2)}, b1 \in {Last(xs) \div 2, CeilDiv(Last(xs), 2)},
+              e1 \in {Last(xs), Last(xs) - 1}, os \in {13, 18}, kn \in BOOLEAN, od \in {"ab", "ba"}} :
+          xs \in {<<2>>, <<3>>, <<4>>, <<5>>, <<2, 4>>, <<2, 3>>, <<4, 2>>}}
+SS_X(q) == T("f32", q.xs, [k \in 1..Numel(q.xs) |-> k])
+SS_HostValid(q) == NormAxis(q.ax, Len(q.xs)) # -1000
+SS_Lhs(q) == IF ~SS_HostValid(q) THEN ERR
+             ELSE PAIR(Slice(SS_X(q), <<q.b0>>, <<q.e0>>, <<q.ax>>, <<1>>), Slice(SS_X(q), <<q.b1>>, <<q.e1>>, <<q.ax>>, <<1>>))
+\* two-output pattern: SimplePatternMatcher.match fixes the visited node as first output and returns the FIRST
+\* structurally matching combination with a Slice of the graph as second output (it may be the same node); the
+\* condition function is evaluated on that combination only.  The right combination is the first one exactly when
+\* the second-half Slice precedes the first-half Slice in the graph ("ba").
+SS_Match(q, devs) == q.order = "ba"
+SS_Check(q, devs) ==
+   LET r == Len(q.xs) d == q.xs[r] IN
+   IF ~q.known THEN "fail"
+   ELSE IF q.ax # -1 /\ q.ax # r - 1 THEN "fail"
+   ELSE IF q.b0 # 0 \/ q.e0 # q.b1 \/ d # q.e1 \/ d \div 2 # q.b1 THEN "fail"
+   \* design: Split(num_outputs = 2) gives the larger chunk first; num_outputs exists from opset 18 on
+   ELSE IF "slice_split_odd" \notin devs /\ d % 2 = 1 THEN "fail"
+   ELSE IF "split_num_outputs_pre_opset18" \notin devs /\ q.opset < 18 THEN "fail"
+   ELSE "ok"
+SS_Rewrite(q, devs) ==
+   LET r == Len(q.xs) d == q.xs[r] h == CeilDiv(d, 2) IN
+   Res(PAIR(Slice(SS_X(q), <<0>>, <<h>>, <<-1>>, <<1>>), Slice(SS_X(q), <<h>>, <<d>>, <<-1>>, <<1>>)), q.opset >= 18)
+SS_Unknown(q) == ~q.known
+SS_Params(z) == {q \in SS_AllParams(0) : SS_HostValid(q)}
+
+-----------------------------------------------------------------------------
+(* transposes: _basic_rules.py TransposeIdentity, TransposeTranspose.  perm NOPERM = attribute absent *)
+NOPERM == <<-1>>
+Perms(r) == {f \in [1..r -> 0..(r - 1)] : \A i, j \in 1..r : i # j => f[i] # f[j]}
+TR_Shape(r) == SubSeq(<<2, 3, 1>>, 1, r)
+TR_Params(z) == UNION {{[kind |-> "noop", r |-> r, p1 |-> pa, p2 |-> NOPERM] : pa \in Perms(r) \cup {NOPERM}} : r \in 1..3}
+             \cup UNION {{[kind |-> "tt", r |-> r, p1 |-> pa, p2 |-> pb] : pa \in Perms(r) \cup {NOPERM}, pb \in Perms(r) \cup {NOPERM}} : r \in 1..3}
+TR_X(q) == T("f32", TR_Shape(q.r), [k \in 1..Numel(TR_Shape(q.r)) |-> k])
+TR_Perm(pm, r) == IF pm = NOPERM THEN RevPerm(r) ELSE pm
+TR_Lhs(q) == IF q.kind = "noop" THEN Transpose(TR_X(q), TR_Perm(q.p1, q.r))
+             ELSE Transpose(Transpose(TR_X(q), TR_Perm(q.p1, q.r)), TR_Perm(q.p2, q.r))
+\* the pattern binds the attribute perm: a node without it does not match
+TR_Match(q, devs) == q.p1 # NOPERM /\ (q.kind = "noop" \/ q.p2 # NOPERM)
+TR_Check(q, devs) == IF q.kind = "noop" THEN (IF q.p1 = [i \in 1..q.r |-> i - 1] THEN "ok" ELSE "fail") ELSE "ok"
+TR_Rewrite(q, devs) ==
+   IF q.kind = "noop" THEN Res(TR_X(q), TRUE)
+   ELSE LET last == [i \in 1..q.r |-> q.p1[q.p2[i] + 1]]         \* _apply_transposes([perm1, perm2])
+        IN Res(Transpose(TR_X(q), last), TRUE)
+TR_Unknown(q) == FALSE
+
+-----------------------------------------------------------------------------
+(* unsqueeze2: _basic_rules.py UnsqueezeUnsqueeze *)
+UU_AllParams(z) == {[xs |-> xs, a1 |-> a1, a2 |-> a2, akind |-> k] : xs \in {<<>>, <<2>>, <<2, 3>>}, a1 \in -3..2, a2 \in -4..3,
+                 k \in {"init", "cnode", "ginput", "ginit"}}
+UU_X(q) == T("f32", q.xs, [k \in 1..Numel(q.xs) |-> k])
+UU_Lhs(q) == Unsqueeze(Unsqueeze(UU_X(q), <<q.a1>>), <<q.a2>>)
+UU_Check(q, devs) == IF ~HasConstValue(q.akind, devs) THEN "fail" ELSE IF q.a1 < 0 \/ q.a2 < 0 THEN "fail" ELSE "ok"
+UU_Rewrite(q, devs) == Res(Unsqueeze(UU_X(q), IF q.a1 < q.a2 THEN <<q.a1, q.a2>> ELSE <<q.a2, q.a1 + 1>>), TRUE)
+UU_Unknown(q) == q.akind \in {"ginput", "ginit"}
+
+-----------------------------------------------------------------------------
+(* squeeze_reshape: _basic_rules.py SqueezeReshape   Reshape(Squeeze(x), [-1]) *)
+SQ_AllParams(z) == {[xs |-> xs, decl |-> dc, tgt |-> tg, axes |-> ax, tkind |-> k] : xs \in {<<1>>, <<3>>, <<1, 1>>, <<1, 3>>}, dc \in {"static", "sym", "none"},
+                 tg \in {<<-1>>, <<3>>, <<1>>, <<-1, 1>>}, ax \in BOOLEAN, k \in {"init", "cnode", "ginput", "ginit"}}
+SQ_X(q) == T("f32", q.xs, [k \in 1..Numel(q.xs) |-> k])
+SQ_HostValid(q) == ~q.axes \/ q.xs[1] = 1           \* Squeeze(x, axes=[0])
+SQ_Lhs(q) == IF ~SQ_HostValid(q) THEN ERR ELSE Reshape(IF q.axes THEN Squeeze(SQ_X(q), <<0>>) ELSE SqueezeAll(SQ_X(q)), q.tgt, FALSE)
+\* pattern: Squeeze with exactly one input; second Reshape input a constant 1-D tensor equal to [-1]
+SQ_Match(q, devs) == ~q.axes /\ HasConstValue(q.tkind, devs) /\ q.tgt = <<-1>>
+SQ_Check(q, devs) == IF Decl(q.decl, q.xs) # NOSHP /\ Len(q.xs) = 1 THEN "ok" ELSE "fail"
+SQ_Rewrite(q, devs) == Res(SQ_X(q), TRUE)
+SQ_Unknown(q) == q.decl = "none" \/ q.tkind \in {"ginput", "ginit"}
+
+-----------------------------------------------------------------------------
+(* matmul_reshape: _broadcast_to_matmul.py  Reshape(MatMul(Reshape(a, sa), [Reshape](b, sb)), sc) -> MatMul(a, b) *)
+MatMul(a, b) ==
+   IF IsErr(a) \/ IsErr(b) THEN ERR
+   ELSE IF Rank(a) = 0 \/ Rank(b) = 0 THEN ERR
+   ELSE LET as2 == IF Rank(a) = 1 THEN <<1>> \o a.shape ELSE a.shape
+            bs2 == IF Rank(b) = 1 THEN b.shape \o <<1>> ELSE b.shape
+            ra == Len(as2) rb == Len(bs2)
+            M == as2[ra - 1] K == as2[ra] N == bs2[rb]
+            ba == SubSeq(as2, 1, ra - 2) bb == SubSeq(bs2, 1, rb - 2)
+            bo == BroadcastShape(ba, bb)
+        IN IF K # bs2[rb - 1] \/ bo = NOSHAPE THEN ERR
+           ELSE LET nb == Len(bo)
+                    a2 == T(a.dt, as2, a.data) b2 == T(b.dt, bs2, b.data)
+                    BIdx(bsh, idx) == [j \in 1..Len(bsh) |-> IF bsh[j] = 1 THEN 0 ELSE idx[j + nb - Len(bsh)]]
+                    Op(idx) == SeqSum([k \in 1..K |-> At(a2, BIdx(ba, idx) \o <<idx[nb + 1], k - 1>>) * At(b2, BIdx(bb, idx) \o <<k - 1, idx[nb + 2]>>)])
+                    full == FromFn(a.dt, bo \o <<M, N>>, Op)
+                    osh == bo \o (IF Rank(a) = 1 THEN <<>> ELSE <<M>>) \o (IF Rank(b) = 1 THEN <<>> ELSE <<N>>)
+                IN T(a.dt, osh, full.data)
+SameNumel(S, n) == {s \in S : Numel(s) = n}
+BM_Shapes == IF Big THEN ShapesUpTo(3, {1, 2}) \ {<<>>} ELSE {<<2>>, <<1, 2>>, <<2, 1>>, <<2, 2>>, <<1, 2, 2>>, <<2, 1, 2>>, <<2, 2, 1>>, <<4>>, <<1, 4>>}
+NOSB == <<-1>>
+\* shape of MatMul(s, t) or <<-1000>>
+MMShape(s, t) ==
+   IF Len(s) = 0 \/ Len(t) = 0 THEN <<-1000>>
+   ELSE LET s2 == IF Len(s) = 1 THEN <<1>> \o s ELSE s
+            t2 == IF Len(t) = 1 THEN t \o <<1>> ELSE t
+            bo == BroadcastShape(SubSeq(s2, 1, Len(s2) - 2), SubSeq(t2, 1, Len(t2) - 2))
+        IN IF Last(s2) # t2[Len(t2) - 1] \/ bo = NOSHAPE THEN <<-1000>>
+           ELSE bo \o (IF Len(s) = 1 THEN <<>> ELSE <<s2[Len(s2) - 1]>>) \o (IF Len(t) = 1 THEN <<>> ELSE <<Last(t2)>>)
+BM_Params(z) ==
+   UNION {UNION {UNION {UNION {
+      {[as |-> as, bs |-> bs, sa |-> sa, sb |-> sb, sc |-> sc, ckind |-> "init"] :
+           sc \in (LET ms == MMShape(sa, IF sb = NOSB THEN bs ELSE sb) IN IF ms = <<-1000>> THEN {} ELSE SameNumel(BM_Shapes, Numel(ms)))}
+      : sb \in SameNumel(BM_Shapes, Numel(bs)) \cup {NOSB}} : sa \in SameNumel(BM_Shapes, Numel(as))} : bs \in BM_Shapes} : as \in BM_Shapes}
+BM_A(q) == T("f32", q.as, [k \in 1..Numel(q.as) |-> k])
+BM_B(q) == T("f32", q.bs, [k \in 1..Numel(q.bs) |-> 2 * k - 3])
+BM_Lhs(q) == IF Numel(q.sa) # Numel(q.as) \/ (q.sb # NOSB /\ Numel(q.sb) # Numel(q.bs)) THEN ERR
+             ELSE LET mm == MatMul(Reshape(BM_A(q), q.sa, FALSE), IF q.sb = NOSB THEN BM_B(q) ELSE Reshape(BM_B(q), q.sb, FALSE))
+                  IN IF IsErr(mm) THEN ERR ELSE Reshape(mm, q.sc, FALSE)
+\* check_if_not_need_reshape, transcribed
+BM_Computed(q) ==
+   LET a0 == q.as b0 == q.bs
+       ar0 == Len(a0) br0 == Len(b0)
+   IN IF ar0 < 2 /\ br0 < 2 THEN <<-1000>>
+      ELSE IF ar0 < 2 /\ Last(a0) # b0[br0 - 1] THEN <<-1000>>
+      ELSE LET a1 == IF ar0 < 2 THEN <<1>> \o a0 ELSE a0
+               mimA == ar0 < 2
+           IN IF br0 < 2 /\ Last(b0) # Last(a1) THEN <<-1000>>
+              ELSE LET b1 == IF br0 < 2 THEN b0 \o <<1>> ELSE b0
+                       mimB == br0 < 2
+                       ar == Len(a1) br == Len(b1)
+                       aex == SubSeq(a1, 1, ar - 2) \o <<a1[ar]>>
+                       bex == SubSeq(b1, 1, br - 1)
+                       n == Min2(Len(aex), Len(bex))
+                       da(i) == aex[Len(aex) - i]      \* i = 0 .. n-1 from the right
+                       db(i) == bex[Len(bex) - i]
+                   IN IF \E i \in 0..(n - 1) : da(i) # 1 /\ da(i) # db(i) THEN <<-1000>>
+                      ELSE LET mid == [j \in 1..(n - 1) |-> Max2(da(n - j), db(n - j))] \o <<a1[ar - 1], b1[br]>>
+                               longer == IF ar > br THEN a1 ELSE b1
+                               shorter == IF ar > br THEN b1 ELSE a1
+                               o1 == SubSeq(longer, 1, Len(longer) - Len(shorter)) \o mid
+                               o2 == IF mimB /\ br = 2 /\ b1[br] = 1 THEN SubSeq(o1, 1, Len(o1) - 1) ELSE o1
+                               o3 == IF mimA /\ ar = 2 /\ a1[1] = 1 THEN RemoveAt(o2, Len(o2) - 1) ELSE o2
+                           IN o3
+\* design: the inner reshapes must be transparent to MatMul (they may only add or drop leading 1s), and a . b
+\* must itself be a valid MatMul
+DropLead1(s) == IF Len(s) > 0 /\ s[1] = 1 /\ Len(s) > 1 THEN SubSeq(s, 2, Len(s)) ELSE s
+RECURSIVE Strip1(_)
+Strip1(s) == IF Len(s) > 1 /\ s[1] = 1 THEN Strip1(Tail(s)) ELSE s
+BM_Transparent(q) == /\ Strip1(q.sa) = Strip1(q.as) /\ (Len(q.as) = 1 <=> Len(q.sa) = 1)
+                     /\ (q.sb = NOSB \/ (Strip1(q.sb) = Strip1(q.bs) /\ (Len(q.bs) = 1 <=> Len(q.sb) = 1)))
+BM_Match(q, devs) == TRUE
+BM_Check(q, devs) ==
+   IF BM_Computed(q) # q.sc THEN "fail"
+   ELSE IF "reshape_matmul_ignores_inner_shapes" \notin devs /\ (~BM_Transparent(q) \/ IsErr(MatMul(BM_A(q), BM_B(q)))) THEN "fail"
+   ELSE "ok"
+BM_Rewrite(q, devs) == Res(MatMul(BM_A(q), BM_B(q)), TRUE)
+BM_Unknown(q) == FALSE
+
+NE_Params(z) == {q \in NE_AllParams(0) : BroadcastShape(q.as, q.es) # NOSHAPE}
+UU_Params(z) == {q \in UU_AllParams(0) : q.a1 >= -(Len(q.xs) + 1) /\ q.a1 <= Len(q.xs) /\ q.a2 >= -(Len(q.xs) + 2) /\ q.a2 <= Len(q.xs) + 1}
+SQ_Params(z) == {q \in SQ_AllParams(0) : ~q.axes \/ q.xs[1] = 1}
+
+-----------------------------------------------------------------------------
 (* dispatch *)
-ParamsOf(f) == CASE f = "relus_clips" -> RC_Params [] f = "min_max" -> MM_Params [] f = "no_op" -> NO_Params
-                 [] f = "cast_cos" -> CC_Params [] f = "scatter_static" -> SC_Params [] f = "dropout" -> DO_Params
-LhsOf(f, q) == CASE f = "relus_clips" -> RC_Lhs(q) [] f = "min_max" -> MM_Lhs(q) [] f = "no_op" -> NO_Lhs(q)
-                 [] f = "cast_cos" -> CC_Lhs(q) [] f = "scatter_static" -> SC_Lhs(q) [] f = "dropout" -> DO_Lhs(q)
-MatchOf(f, q, d) == CASE f = "relus_clips" -> RC_Match(q, d) [] f = "min_max" -> MM_Match(q, d) [] f = "no_op" -> NO_Match(q, d)
-                      [] f = "cast_cos" -> CC_Match(q, d) [] f = "scatter_static" -> SC_Match(q, d) [] f = "dropout" -> DO_Match(q, d)
-CheckOf(f, q, d) == CASE f = "relus_clips" -> RC_Check(q, d) [] f = "min_max" -> MM_Check(q, d) [] f = "no_op" -> NO_Check(q, d)
-                      [] f = "cast_cos" -> CC_Check(q, d) [] f = "scatter_static" -> SC_Check(q, d) [] f = "dropout" -> "ok"
-RewriteOf(f, q, d) == CASE f = "relus_clips" -> RC_Rewrite(q, d) [] f = "min_max" -> MM_Rewrite(q, d) [] f = "no_op" -> NO_Rewrite(q, d)
-                        [] f = "cast_cos" -> CC_Rewrite(q, d) [] f = "scatter_static" -> SC_Rewrite(q, d) [] f = "dropout" -> DO_Rewrite(q, d)
-UnknownOf(f, q) == CASE f = "relus_clips" -> RC_Unknown(q) [] f = "min_max" -> MM_Unknown(q) [] f = "no_op" -> NO_Unknown(q)
-                     [] f = "cast_cos" -> CC_Unknown(q) [] f = "scatter_static" -> SC_Unknown(q) [] f = "dropout" -> FALSE
+ParamsOf(f) == CASE f = "relus_clips" -> RC_Params(0)
+      [] f = "min_max" -> MM_Params(0)
+      [] f = "no_op" -> NO_Params(0)
+      [] f = "dropout" -> DO_Params(0)
+      [] f = "cast_cos" -> CC_Params(0)
+      [] f = "scatter_static" -> SC_Params(0)
+      [] f = "scatter_dynamic" -> SD_Params(0)
+      [] f = "expand_binop" -> EX_Params(0)
+      [] f = "materialize" -> MR_Params(0)
+      [] f = "collapse_slices" -> CS_Params(0)
+      [] f = "casts" -> CA_Params(0)
+      [] f = "no_op_expand" -> NE_Params(0)
+      [] f = "reshape_reshape" -> RR_Params(0)
+      [] f = "flatten" -> FL_Params(0)
+      [] f = "slice_split" -> SS_Params(0)
+      [] f = "transposes" -> TR_Params(0)
+      [] f = "unsqueeze2" -> UU_Params(0)
+      [] f = "squeeze_reshape" -> SQ_Params(0)
+      [] f = "matmul_reshape" -> BM_Params(0)
+LhsOf(f, q) == CASE f = "relus_clips" -> RC_Lhs(q)
+      [] f = "min_max" -> MM_Lhs(q)
+      [] f = "no_op" -> NO_Lhs(q)
+      [] f = "dropout" -> DO_Lhs(q)
+      [] f = "cast_cos" -> CC_Lhs(q)
+      [] f = "scatter_static" -> SC_Lhs(q)
+      [] f = "scatter_dynamic" -> SD_Lhs(q)
+      [] f = "expand_binop" -> EX_Lhs(q)
+      [] f = "materialize" -> MR_Lhs(q)
+      [] f = "collapse_slices" -> CS_Lhs(q)
+      [] f = "casts" -> CA_Lhs(q)
+      [] f = "no_op_expand" -> NE_Lhs(q)
+      [] f = "reshape_reshape" -> RR_Lhs(q)
+      [] f = "flatten" -> FL_Lhs(q)
+      [] f = "slice_split" -> SS_Lhs(q)
+      [] f = "transposes" -> TR_Lhs(q)
+      [] f = "unsqueeze2" -> UU_Lhs(q)
+      [] f = "squeeze_reshape" -> SQ_Lhs(q)
+      [] f = "matmul_reshape" -> BM_Lhs(q)
+MatchOf(f, q, d) == CASE f = "relus_clips" -> RC_Match(q, d)
+      [] f = "min_max" -> MM_Match(q, d)
+      [] f = "no_op" -> NO_Match(q, d)
+      [] f = "dropout" -> DO_Match(q, d)
+      [] f = "cast_cos" -> CC_Match(q, d)
+      [] f = "scatter_static" -> SC_Match(q, d)
+      [] f = "scatter_dynamic" -> SD_Match(q, d)
+      [] f = "expand_binop" -> EX_Match(q, d)
+      [] f = "materialize" -> MR_Match(q, d)
+      [] f = "collapse_slices" -> CS_Match(q, d)
+      [] f = "casts" -> CA_Match(q, d)
+      [] f = "no_op_expand" -> TRUE
+      [] f = "reshape_reshape" -> ~q.extra
+      [] f = "flatten" -> TRUE
+      [] f = "slice_split" -> SS_Match(q, d)
+      [] f = "transposes" -> TR_Match(q, d)
+      [] f = "unsqueeze2" -> TRUE
+      [] f = "squeeze_reshape" -> SQ_Match(q, d)
+      [] f = "matmul_reshape" -> BM_Match(q, d)
+CheckOf(f, q, d) == CASE f = "relus_clips" -> RC_Check(q, d)
+      [] f = "min_max" -> MM_Check(q, d)
+      [] f = "no_op" -> "ok"
+      [] f = "dropout" -> "ok"
+      [] f = "cast_cos" -> CC_Check(q, d)
+      [] f = "scatter_static" -> SC_Check(q, d)
+      [] f = "scatter_dynamic" -> SD_Check(q, d)
+      [] f = "expand_binop" -> EX_Check(q, d)
+      [] f = "materialize" -> MR_Check(q, d)
+      [] f = "collapse_slices" -> CS_Check(q, d)
+      [] f = "casts" -> CA_Check(q, d)
+      [] f = "no_op_expand" -> NE_Check(q, d)
+      [] f = "reshape_reshape" -> RR_Check(q, d)
+      [] f = "flatten" -> FL_Check(q, d)
+      [] f = "slice_split" -> SS_Check(q, d)
+      [] f = "transposes" -> TR_Check(q, d)
+      [] f = "unsqueeze2" -> UU_Check(q, d)
+      [] f = "squeeze_reshape" -> SQ_Check(q, d)
+      [] f = "matmul_reshape" -> BM_Check(q, d)
+RewriteOf(f, q, d) == CASE f = "relus_clips" -> RC_Rewrite(q, d)
+      [] f = "min_max" -> MM_Rewrite(q, d)
+      [] f = "no_op" -> NO_Rewrite(q, d)
+      [] f = "dropout" -> DO_Rewrite(q, d)
+      [] f = "cast_cos" -> CC_Rewrite(q, d)
+      [] f = "scatter_static" -> SC_Rewrite(q, d)
+      [] f = "scatter_dynamic" -> SD_Rewrite(q, d)
+      [] f = "expand_binop" -> EX_Rewrite(q, d)
+      [] f = "materialize" -> MR_Rewrite(q, d)
+      [] f = "collapse_slices" -> CS_Rewrite(q, d)
+      [] f = "casts" -> CA_Rewrite(q, d)
+      [] f = "no_op_expand" -> NE_Rewrite(q, d)
+      [] f = "reshape_reshape" -> RR_Rewrite(q, d)
+      [] f = "flatten" -> FL_Rewrite(q, d)
+      [] f = "slice_split" -> SS_Rewrite(q, d)
+      [] f = "transposes" -> TR_Rewrite(q, d)
+      [] f = "unsqueeze2" -> UU_Rewrite(q, d)
+      [] f = "squeeze_reshape" -> SQ_Rewrite(q, d)
+      [] f = "matmul_reshape" -> BM_Rewrite(q, d)
+UnknownOf(f, q) == CASE f = "relus_clips" -> RC_Unknown(q)
+      [] f = "min_max" -> MM_Unknown(q)
+      [] f = "no_op" -> NO_Unknown(q)
+      [] f = "dropout" -> FALSE
+      [] f = "cast_cos" -> CC_Unknown(q)
+      [] f = "scatter_static" -> SC_Unknown(q)
+      [] f = "scatter_dynamic" -> SD_Unknown(q)
+      [] f = "expand_binop" -> EX_Unknown(q)
+      [] f = "materialize" -> MR_Unknown(q)
+      [] f = "collapse_slices" -> CS_Unknown(q)
+      [] f = "casts" -> CA_Unknown(q)
+      [] f = "no_op_expand" -> NE_Unknown(q)
+      [] f = "reshape_reshape" -> RR_Unknown(q)
+      [] f = "flatten" -> FL_Unknown(q)
+      [] f = "slice_split" -> SS_Unknown(q)
+      [] f = "transposes" -> TR_Unknown(q)
+      [] f = "unsqueeze2" -> UU_Unknown(q)
+      [] f = "squeeze_reshape" -> SQ_Unknown(q)
+      [] f = "matmul_reshape" -> BM_Unknown(q)
 ExactOf(f, q) == IF f = "no_op" THEN NO_Exact(q) ELSE TRUE
+
+\* derived facts of the host model that the harness needs to build it (declared shapes as the spec computes them)
+AuxOf(f, q) ==
+   CASE f = "expand_binop" -> LET eact == BroadcastShape(q.as, q.es) osh == BroadcastShape(eact, q.bs) IN
+                              [xd |-> Decl(q.decl, q.as), yd |-> IF q.decl = "none" THEN q.bs ELSE Decl(q.decl, q.bs),
+                               ed |-> IF q.strat # "annot" THEN NOSHP ELSE IF q.decl = "none" THEN eact ELSE Decl(q.decl, eact),
+                               od |-> IF q.strat = "out" THEN (IF q.decl = "none" THEN osh ELSE Decl(q.decl, osh)) ELSE [i \in 1..Len(osh) |-> UNK]]
+     [] f = "materialize" -> [od |-> IF q.ovi /\ ~IsErr(MR_Lhs(q)) THEN MR_OutDecl(q) ELSE NOSHP]
+     [] f = "collapse_slices" -> [xd |-> Decl(q.decl, q.ds), od |-> CS_OutDecl(q)]
+     [] f = "no_op_expand" -> [xd |-> Decl(q.decl, q.as)]
+     [] f = "flatten" -> [xd |-> FL_Decl(q)]
+     [] f = "squeeze_reshape" -> [xd |-> Decl(q.decl, q.xs)]
+     [] f = "scatter_dynamic" -> [dd |-> SD_DataDecl(q), tdd |-> SD_TdDecl(q), perm |-> SD_Perm(q), tds |-> SD_TdShape(q), us |-> SD_UpdShape(q)]
+     [] f = "scatter_static" -> [dd |-> SC_Decl(q.dd, q.ds), ud |-> SC_Decl(q.ud, SC_Us(q))]
+     [] OTHER -> [none |-> 0]
 
 -----------------------------------------------------------------------------
 (* the application attempt as a function (used for `why`) and as a behaviour (below) *)
@@ -287,7 +861,20 @@ Attempt(f, q, d) == LET m == MatchOf(f, q, d)
                         c == IF m THEN CheckOf(f, q, d) ELSE "skip"
                         r == IF c = "ok" THEN RewriteOf(f, q, d) ELSE NoRes
                     IN Outcome(m, c, r)
-Why(f, q) == {d \in Deviations : Attempt(f, q, Deviations \ {d}) # Attempt(f, q, Deviations)}
+\* the deviations a family's operators mention (only these can change its outcome)
+DevsOf(f) == CASE f = "relus_clips" -> {"relu_clip_negmax", "clip_clip_disjoint", "relu_clip_no_dtype_raise"}
+               [] f = "min_max" -> {"overridable_read_as_const", "minmax_clip_rank", "clip_inputs_pre_opset11"}
+               [] f = "no_op" -> {"const_tolerance", "overridable_read_as_const"}
+               [] f = "cast_cos" -> {"cast_cos_overflow"}
+               [] f = "scatter_static" -> {"scatter_symbolic_raise", "scatter_static_ignores_reduction", "overridable_read_as_const"}
+               [] f = "expand_binop" -> {"expand_rank_extension", "expand_binop_drops_attrs"}
+               [] f = "materialize" -> {"materialize_allowzero"}
+               [] f = "flatten" -> {"flatten_zero_dim"}
+               [] f = "slice_split" -> {"slice_split_odd", "split_num_outputs_pre_opset18"}
+               [] f = "matmul_reshape" -> {"reshape_matmul_ignores_inner_shapes"}
+               [] f \in {"collapse_slices", "no_op_expand", "reshape_reshape", "unsqueeze2", "squeeze_reshape", "scatter_dynamic"} -> {"overridable_read_as_const"}
+               [] OTHER -> {}
+Why(f, q) == {d \in Deviations \cap DevsOf(f) : Attempt(f, q, Deviations \ {d}) # Attempt(f, q, Deviations)}
 
 Nil == [D |-> "-", I |-> "-"]
 Init == /\ \E f \in Families : fam = f /\ p \in ParamsOf(f)
@@ -303,7 +890,7 @@ Rewrite == /\ stage = "checked"
            /\ stage' = "rewritten" /\ UNCHANGED <<fam, p, mt, ck, fin>>
 Replace == /\ stage = "rewritten"
            /\ fin' = [lhs |-> LhsOf(fam, p), D |-> Outcome(mt.D, ck.D, rw.D), I |-> Outcome(mt.I, ck.I, rw.I),
-                      why |-> Why(fam, p), unknown |-> UnknownOf(fam, p), exact |-> ExactOf(fam, p)]
+                      why |-> IF Outcome(mt.I, ck.I, rw.I) = Outcome(mt.D, ck.D, rw.D) THEN {} ELSE Why(fam, p), unknown |-> UnknownOf(fam, p), exact |-> ExactOf(fam, p)]
            /\ stage' = "done" /\ UNCHANGED <<fam, p, mt, ck, rw>>
 Next == Match \/ Check \/ Rewrite \/ Replace
 Spec == Init /\ [][Next]_vars
@@ -324,7 +911,7 @@ NeverFires == ~(Judged /\ fin.D.fired)
 ImplHolds == Judged => Holds(fin.I)
 NeverDeclines == ~(Judged /\ ~fin.D.fired /\ fin.I.fired)
 
-CaseRec == [fam |-> fam, p |-> p, lhs |-> fin.lhs, D |-> fin.D, I |-> fin.I, why |-> SetToSeq(fin.why),
+CaseRec == [fam |-> fam, p |-> p, aux |-> AuxOf(fam, p), lhs |-> fin.lhs, D |-> fin.D, I |-> fin.I, why |-> SetToSeq(fin.why),
             unknown |-> fin.unknown, exact |-> fin.exact]
 EmitCases == Done => PrintT(<<"CASE", ToJson(CaseRec)>>)
 
